@@ -130,8 +130,20 @@ func HarnessC10Apply() {
 	page := vx.Pages[vx.Choose("page", len(vx.Pages))]
 	doc := vx.ParseHTML(page)
 	root := doc
-	rootKind := vx.Choose("root", 6)
+	rootKind := vx.Choose("root", 7)
 	switch rootKind {
+	case 6: // a hand-assembled document node with several top-level elements (as html.ParseFragment callers build)
+		d := &html.Node{Type: html.DocumentNode}
+		body := dom.QuerySelector(doc, "body")
+		for c := body.FirstChild; c != nil; {
+			next := c.NextSibling
+			if c.Type == html.ElementNode {
+				body.RemoveChild(c)
+				d.AppendChild(c)
+			}
+			c = next
+		}
+		doc, root = d, d
 	case 1:
 		root = dom.QuerySelector(doc, "html")
 	case 2:
